@@ -214,7 +214,7 @@ func gobBytes(v any) []byte {
 	return buf.Bytes()
 }
 
-// c11Legacy plants old-format (gob) records and compares decisions with current-format records of the same values.
+// c11Legacy plants old-format (gob) records and compares export and decisions with current-format records of the same values.
 func c11Legacy(run *ev.Run, vals []int64) (int, error) {
 	cells := 0
 	root := rig.Scratch("c11g")
@@ -225,67 +225,119 @@ func c11Legacy(run *ev.Run, vals []int64) (int, error) {
 	}
 	defer w.Close()
 	type planted struct {
-		gobPub, curPub string
-		what           string
+		g, c       *rig.Acct
+		s, t, slot int64
 	}
 	var all []planted
 	for _, s := range vals {
 		for _, t := range vals {
-			for _, slot := range []int64{vals[(len(all))%len(vals)]} {
-				if _, err := w.Exec(nil); err != nil { // two fresh accounts: 0 = legacy, 1 = current
-					return cells, err
-				}
-				g, c := w.Accts[0], w.Accts[1]
-				ctx := w.Rig.Ctx
-				cur := make([]byte, 17)
-				cur[0] = 1
-				putU64(cur[1:9], uint64(s))
-				putU64(cur[9:17], uint64(t))
-				curP := make([]byte, 9)
-				curP[0] = 1
-				putU64(curP[1:9], uint64(slot))
-				if err := w.Rig.Rules.VerifRawPut(ctx, append(g.PubBytes(), 2), gobBytes(legacyAtt{s, t})); err != nil {
-					return cells, err
-				}
-				if err := w.Rig.Rules.VerifRawPut(ctx, append(c.PubBytes(), 2), cur); err != nil {
-					return cells, err
-				}
-				if err := w.Rig.Rules.VerifRawPut(ctx, append(g.PubBytes(), 3), gobBytes(legacyProp{slot})); err != nil {
-					return cells, err
-				}
-				if err := w.Rig.Rules.VerifRawPut(ctx, append(c.PubBytes(), 3), curP); err != nil {
-					return cells, err
-				}
-				// Probe alphabet around the planted values.
-				set := map[uint64]bool{0: true, 1: true}
-				for _, v := range []int64{s, t, slot} {
-					for d := int64(-1); d <= 1; d++ {
-						if v+d >= 0 {
-							set[uint64(v+d)] = true
-						}
-					}
-				}
-				var V []uint64
-				for v := range set {
-					V = append(V, v)
-				}
-				sort.Slice(V, func(i, j int) bool { return V[i] < V[j] })
-				trG, trC := &Trace{}, &Trace{}
-				if err := w.Continue(trG, probeSeq(0, V), false); err != nil {
-					return cells, err
-				}
-				if err := w.Continue(trC, probeSeq(1, V), false); err != nil {
-					return cells, err
-				}
-				cells++
-				og, oc := strings.Join(trG.Obs, ""), strings.Join(trC.Obs, "")
-				if og != oc {
-					run.Violate(fmt.Sprintf("legacy-record:att=(%d,%d):slot=%d", s, t, slot),
-						fmt.Sprintf("old-format record (source %d, target %d, slot %d) decides probes %v as %s, the same values in the current format as %s", s, t, slot, V, og, oc),
-						map[string]any{"check": "C11", "legacy": map[string]int64{"s": s, "t": t, "slot": slot}})
-				}
-				all = append(all, planted{hex.EncodeToString(g.PubBytes()), hex.EncodeToString(c.PubBytes()), fmt.Sprintf("(%d,%d,%d)", s, t, slot)})
+			slot := vals[len(all)%len(vals)]
+			if _, err := w.Exec(nil); err != nil { // two fresh accounts: 0 = legacy, 1 = current
+				return cells, err
 			}
+			g, c := w.Accts[0], w.Accts[1]
+			ctx := w.Rig.Ctx
+			cur := make([]byte, 17)
+			cur[0] = 1
+			putU64(cur[1:9], uint64(s))
+			putU64(cur[9:17], uint64(t))
+			curP := make([]byte, 9)
+			curP[0] = 1
+			putU64(curP[1:9], uint64(slot))
+			for _, put := range []struct {
+				k []byte
+				v []byte
+			}{
+				{append(g.PubBytes(), 2), gobBytes(legacyAtt{s, t})},
+				{append(c.PubBytes(), 2), cur},
+				{append(g.PubBytes(), 3), gobBytes(legacyProp{slot})},
+				{append(c.PubBytes(), 3), curP},
+			} {
+				if err := w.Rig.Rules.VerifRawPut(ctx, put.k, put.v); err != nil {
+					return cells, err
+				}
+			}
+			all = append(all, planted{g, c, s, t, slot})
+		}
+	}
+	// Export through the real CLI: old-format and current-format records of the same values must be stated identically.
+	if err := w.Rig.StopStore(); err != nil {
+		return cells, err
+	}
+	file := filepath.Join(root, "legacy-export.json")
+	code, so, se, err := rig.CLI(w.Rig.Dir, "--export-slashing-protection", "--genesis-validators-root", rig.GVR, "--slashing-protection-file", file)
+	if err != nil {
+		return cells, err
+	}
+	if err := w.Rig.StartStore(); err != nil {
+		return cells, err
+	}
+	if code != 0 {
+		run.Violate("legacy-export-failed", fmt.Sprintf("export of a store holding old-format records exits %d: %s %s", code, so, se), map[string]any{"check": "C11", "legacy": "export"})
+	} else {
+		raw, err := os.ReadFile(file)
+		if err != nil {
+			return cells, err
+		}
+		var ic interchange
+		if err := json.Unmarshal(raw, &ic); err != nil {
+			return cells, err
+		}
+		entry := func(a *rig.Acct) string {
+			pk := "0x" + hex.EncodeToString(a.PubBytes())
+			for _, d := range ic.Data {
+				if strings.EqualFold(d.PubKey, pk) {
+					var l []string
+					for _, b := range d.Blocks {
+						l = append(l, "slot="+b.Slot)
+					}
+					for _, at := range d.Atts {
+						l = append(l, "att="+at.S+"->"+at.T)
+					}
+					return strings.Join(l, ",")
+				}
+			}
+			return "absent"
+		}
+		for _, p := range all {
+			cells++
+			eg, ec := entry(p.g), entry(p.c)
+			if eg != ec {
+				run.Violate(fmt.Sprintf("legacy-export:att=(%d,%d):slot=%d", p.s, p.t, p.slot),
+					fmt.Sprintf("old-format record (source %d, target %d, slot %d) is exported as [%s], the same values in the current format as [%s]", p.s, p.t, p.slot, eg, ec),
+					map[string]any{"check": "C11", "legacy": map[string]int64{"s": p.s, "t": p.t, "slot": p.slot}})
+			}
+		}
+	}
+	// Decisions.
+	for _, p := range all {
+		w.Accts = []*rig.Acct{p.g, p.c}
+		set := map[uint64]bool{0: true, 1: true}
+		for _, v := range []int64{p.s, p.t, p.slot} {
+			for d := int64(-1); d <= 1; d++ {
+				if v+d >= 0 {
+					set[uint64(v+d)] = true
+				}
+			}
+		}
+		var V []uint64
+		for v := range set {
+			V = append(V, v)
+		}
+		sort.Slice(V, func(i, j int) bool { return V[i] < V[j] })
+		trG, trC := &Trace{}, &Trace{}
+		if err := w.Continue(trG, probeSeq(0, V), false); err != nil {
+			return cells, err
+		}
+		if err := w.Continue(trC, probeSeq(1, V), false); err != nil {
+			return cells, err
+		}
+		cells++
+		og, oc := strings.Join(trG.Obs, ""), strings.Join(trC.Obs, "")
+		if og != oc {
+			run.Violate(fmt.Sprintf("legacy-record:att=(%d,%d):slot=%d", p.s, p.t, p.slot),
+				fmt.Sprintf("old-format record (source %d, target %d, slot %d) decides probes %v as %s, the same values in the current format as %s", p.s, p.t, p.slot, V, og, oc),
+				map[string]any{"check": "C11", "legacy": map[string]int64{"s": p.s, "t": p.t, "slot": p.slot}})
 		}
 	}
 	return cells, nil
